@@ -7,6 +7,9 @@ From FB.Base Require Import PyVal Fs.
 From FB.Spec Require Import Prog Ref Oracle.
 From FB.Model Require Import Types Monad Persist Build.
 From FB.Proofs Require Import CleanLaws.
+(* T1g: Model/BuildDirs.v and Model/CreatedFiles.v are equal to the translation of build_dirs.py / created_files.py
+   (Gen/BookGen.v, regenerated on every run); a change of those sources that the model does not follow breaks this import *)
+From FB.Proofs Require BookGenLaws.
 Import ListNotations.
 
 (* the model's clean computes the reference clean of what the cache file records
